@@ -50,6 +50,37 @@ type mModule struct {
 	helpers []mFunc
 	entries []mEntry
 	io      []mIOField // fields of the shared vertex-output / fragment-input struct VO
+	ctxSeed uint64     // decides the statement context each use / call is placed in (plain, if, switch case, loop body, continuing, ...)
+	wrapN   int
+}
+
+// wrap places the statements `body` (assignments and calls only) in one of the statement contexts the back ends'
+// used-global walkers have to descend into; the choice is a function of (ctxSeed, owner, idx).
+func (m *mModule) wrap(body, owner string, idx int) string {
+	h := m.ctxSeed
+	for _, ch := range owner {
+		h = h*1099511628211 + uint64(ch)
+	}
+	h = (h*1099511628211 + uint64(idx)) * 0x9E3779B97F4A7C15
+	m.wrapN++
+	k := fmt.Sprintf("k%d", m.wrapN)
+	switch (h >> 33) % 12 {
+	case 0:
+		return "  if acc != 12345u {\n" + body + "  }\n"
+	case 1:
+		return "  if acc == 12345u { acc = 0u; } else {\n" + body + "  }\n"
+	case 2:
+		return "  switch acc & 1u {\n    case 7u: { }\n    default: {\n" + body + "    }\n  }\n"
+	case 3:
+		return "  loop {\n" + body + "    break;\n  }\n"
+	case 4:
+		return "  var " + k + " = 0u;\n  loop {\n    if " + k + " >= 1u { break; }\n    continuing {\n      " + k + " = " + k + " + 1u;\n" + body + "    }\n  }\n"
+	case 5:
+		return "  {\n    {\n" + body + "    }\n  }\n"
+	case 6:
+		return "  for (var " + k + " = 0u; " + k + " < 1u; " + k + " = " + k + " + 1u) {\n" + body + "  }\n"
+	}
+	return body
 }
 
 func (m *mModule) readExpr(g int) string {
@@ -121,7 +152,7 @@ func subset(c *ctx, n int, p float64) []int {
 }
 
 func genMulti(c *ctx) *mModule {
-	m := &mModule{}
+	m := &mModule{ctxSeed: c.rng.Uint64()}
 	usedBind := map[[2]int]bool{}
 	ng := 2 + c.rng.Intn(5)
 	kinds := []string{"storage_rw", "storage_r", "uniform", "private", "workgroup", "storage_rw", "uniform"}
@@ -248,6 +279,7 @@ func (m *mModule) stagesOf() [][]string {
 
 func (m *mModule) wgsl() string {
 	var b strings.Builder
+	m.wrapN = 0
 	b.WriteString("struct UB { a: vec4<u32>, }\n")
 	b.WriteString("struct VO {\n  @builtin(position) p: vec4<f32>,\n")
 	for i, f := range m.io {
@@ -279,15 +311,16 @@ func (m *mModule) wgsl() string {
 		h.uses = keep
 		fmt.Fprintf(&b, "fn %s(x: u32) -> u32 {\n  var acc: u32 = x;\n", h.name)
 		for _, g := range h.uses {
-			fmt.Fprintf(&b, "  acc = acc + %s;\n", m.readExpr(g))
+			st := fmt.Sprintf("  acc = acc + %s;\n", m.readExpr(g))
 			if h.writes && okFor(stages[hi], g, true) {
 				if w := m.writeStmt(g, "acc"); w != "" {
-					b.WriteString("  " + w + "\n")
+					st += "  " + w + "\n"
 				}
 			}
+			b.WriteString(m.wrap(st, h.name+"u", g))
 		}
 		for _, cidx := range h.calls {
-			fmt.Fprintf(&b, "  acc = acc ^ %s(acc);\n", m.helpers[cidx].name)
+			b.WriteString(m.wrap(fmt.Sprintf("  acc = acc ^ %s(acc);\n", m.helpers[cidx].name), h.name+"c", cidx))
 		}
 		b.WriteString("  return acc;\n}\n")
 	}
@@ -303,15 +336,16 @@ func (m *mModule) wgsl() string {
 		var body strings.Builder
 		body.WriteString("  var acc: u32 = 1u;\n")
 		for _, g := range e.uses {
-			fmt.Fprintf(&body, "  acc = acc + %s;\n", m.readExpr(g))
+			st := fmt.Sprintf("  acc = acc + %s;\n", m.readExpr(g))
 			if _, w := m.allowed(e.stage, g); w {
 				if ws := m.writeStmt(g, "acc"); ws != "" {
-					body.WriteString("  " + ws + "\n")
+					st += "  " + ws + "\n"
 				}
 			}
+			body.WriteString(m.wrap(st, e.name+"u", g))
 		}
 		for _, h := range e.calls {
-			fmt.Fprintf(&body, "  acc = acc ^ %s(acc);\n", m.helpers[h].name)
+			body.WriteString(m.wrap(fmt.Sprintf("  acc = acc ^ %s(acc);\n", m.helpers[h].name), e.name+"c", h))
 		}
 		switch e.stage {
 		case "compute":
